@@ -54,7 +54,7 @@ def mat_plan(thorough):
             (2, 2, 2, False, "{0, 1}", 2), (3, 2, 2, False, "{1}", 2), (4, 2, 2, True, "{2}", 2)]
     if thorough:
         plan += [(2, 3, 3, True, "{0, 1, 2}", 5), (3, 3, 3, True, "{0, 1}", 2), (4, 3, 3, True, "{2}", 1), (2, 3, 2, False, "{0, 1, 2}", 5),
-                 (3, 2, 3, False, "{0, 1}", 2), (4, 2, 2, False, "{1}", 2), (5, 2, 2, True, "{0, 2}", 2), (6, 2, 2, True, "{2}", 2)]
+                 (3, 2, 3, False, "{0, 1}", 0), (4, 2, 2, False, "{1}", 0), (5, 2, 2, True, "{0, 2}", 2), (6, 2, 2, True, "{2}", 2)]
     return plan
 
 
@@ -138,7 +138,7 @@ def gen_vec(nr, nd, renk):
 def vec_plan(thorough):
     # (ranks, global dofs, largest local renumbering kind of module Renum)
     if thorough:
-        return [(1, 3, 2), (2, 3, 5), (3, 3, 5), (4, 2, 2), (4, 3, 1), (5, 2, 2), (6, 2, 2)]
+        return [(1, 3, 2), (2, 3, 5), (3, 3, 5), (4, 2, 2), (4, 3, 0), (5, 2, 2), (6, 2, 0)]
     return [(1, 3, 2), (2, 3, 2), (3, 3, 2), (4, 2, 2)]
 
 
